@@ -11,7 +11,7 @@ CHECKS = {
          "DESIGN.md section 4, C02"),
  "C03": ("exploration",
          "differential enumeration: every log x every batching cut x interposed sync/reopen/snapshot transfer on real FSMs",
-         "Every log up to length 3 (quick) / 4 (thorough) over a 16-entry alphabet is applied under ALL 2^(n-1) batchings, and (shorter logs) with Sync, close+reopen and snapshot save/recover (4 format pairs, fresh and stale receiver) interposed at every cut point; results, content, hash, applied and leader index must equal the one-entry-per-call run and the model.",
+         "Every log up to length 3 (quick) / 4 (thorough) over a 16-entry alphabet is applied under ALL 2^(n-1) batchings, and with Sync, close+reopen and snapshot save/recover (4 format pairs, fresh and stale receiver) interposed at every cut point (shorter logs) resp. after the last entry (all logs); results, content, hash, applied and leader index must equal the one-entry-per-call run and the model.",
          "Trusted: refkv; GetHash as a content digest. Logs beyond the depth and other alphabets are not covered.",
          "DESIGN.md section 4, C03"),
  "C04": ("fault_enumeration",
@@ -21,7 +21,7 @@ CHECKS = {
          "DESIGN.md section 4, C04"),
  "C05": ("model_checking",
          "exhaustive schedule enumeration over harness-stepped real leader/follower engines with observation at every follower apply",
-         "Every schedule of length <= 3 (quick) / <= 5 (thorough, time-capped) over 11 events (6 kinds of leader writes incl. non-idempotent transaction and 100 KiB put, follower poll, snapshot recovery, leader snapshot+log compaction keeping 0/1 entries, follower engine restart) x message limits {1 B, 300 B, default} x leader log cache {0,2}: real engines, real LogServer/SnapshotServer over gRPC, real replication worker stepped one poll/recovery at a time; at every follower apply and after every event the follower's content must equal the leader content recorded at the follower's leader index, which never decreases; then bounded polls reach the leader state; table sets converge under reconcile for every create/delete/reconcile sequence up to length 4.",
+         "Every schedule of length <= 3 (quick) / <= 5 (thorough, time-capped) over 12 events (6 kinds of leader writes incl. non-idempotent transaction and a 300 KiB put that is larger than one follower proposal, an advanced reader warming the leader's log cache, follower poll, snapshot recovery, leader snapshot+log compaction keeping 0/1 entries, follower engine restart) x message limits {1 B, 300 B, default} x leader log cache {0,2}: real engines, real LogServer/SnapshotServer over gRPC, real replication worker stepped one poll/recovery at a time; at every follower apply and after every event the follower's content must equal the leader content recorded at the follower's leader index, which never decreases; then bounded polls reach the leader state; table sets converge under reconcile for every create/delete/reconcile sequence up to length 4.",
          "Trusted: single-node dragonboat clusters as a black box; quiescence between events by polling with generous deadlines (misses are inconclusive). states = distinct observed (leader writes, follower index, follower content); all traces are implementation traces.",
          "DESIGN.md section 4, C05"),
  "C17": ("exploration",
@@ -36,7 +36,7 @@ CHECKS = {
          "DESIGN.md section 4, C06"),
  "C07": ("exploration",
          "bounded exhaustive enumeration of contents (value-size orders) x MaxInMemLogSize settings x target states on real engines, through Manager.Restore, worker.recover over gRPC and backup/restore",
-         "Every content of 0..3 (quick) / 0..5 (thorough) pairs with value sizes from {0,1,40,300} in every order (+64KiB/2MiB cases) x MaxInMemLogSize from {0,600,1000,6MiB} (thorough 7 values) x absent/pre-populated target: captured by the real SnapshotServer.Stream, loaded by the real Manager.Restore; the same through real gRPC and the real replication worker.recover() on follower engines, and through backup.Backup/Restore incl. one-bit corruption of the file; point-in-time at FSM level with a write injected after every output write.",
+         "Every content of 0..3 (quick) / 0..5 (thorough) pairs with value sizes from {0,1,40,300} in every order (+64KiB/2MiB cases) x MaxInMemLogSize from {0,600,1000,6MiB} (thorough 7 values) x absent/pre-populated target x {directly, after an interrupted restore of another image into the same table}: captured by the real SnapshotServer.Stream, loaded by the real Manager.Restore; the same through real gRPC and the real replication worker.recover() on follower engines, and through backup.Backup/Restore incl. one-bit corruption of the file; point-in-time at FSM level with a write injected after every output write.",
          "Trusted: single-node dragonboat engines on in-memory file systems; settings under which dragonboat starves proposals are excluded by construction; a missed generous deadline is inconclusive (counted), never a verdict.",
          "DESIGN.md section 4, C07"),
  "C16": ("exploration",
@@ -56,27 +56,27 @@ CHECKS = {
          "DESIGN.md section 4, C08"),
  "C13": ("exploration",
          "bounded exhaustive sequence enumeration on the real kv.LFSM vs a CAS-register-map model, all batchings, snapshot round trip",
-         "Every update sequence up to length 3 (quick) / 4 (thorough) over 36 updates (set/delete x 3 keys x {0,current,previous,current+1} versions x 2 values) and every sequence up to length 2 over 120 updates (6 keys, far-future version, empty value): result codes and payloads, get/exists/globs vs model, list/listdir history-independence, snapshot->recover into a non-empty store, a second replica under every batching.",
+         "Every update sequence up to length 3 (quick) / 4 (thorough) over 36 updates (set/delete x 3 keys x {0,current,previous,current+1} versions x 2 values) and every sequence up to length 2 over 120 updates (6 keys, far-future version, empty value): result codes and payloads, get/exists/globs vs model, list/listdir history-independence, snapshot->recover into a non-empty store, a snapshot prepared before every entry and saved after the last (must be the store at its prepare point; a replica recovered from it replays the tail identically), a second replica under every batching; conformance of the store adapter used by C14/C15 with the real RaftStore.",
          "Trusted: the map model; entries are built exactly as RaftStore marshals them. RaftStore's error mapping over a real NodeHost is exercised by the engine-based checks.",
          "DESIGN.md section 4, C13"),
  "C14": ("model_checking",
-         "stateless interleaving exploration (cooperative scheduler, unbounded preemptions, visited-state pruning on a complete key) of real Manager catalogue calls + exhaustive enumeration of diffTables",
-         "ALL interleavings at store-call granularity (with and without replica lag) of 2-3 real Managers running 1-2 of {create a, create b, delete a, allocate id} from 2 initial catalogues, checked on the committed log (no creation while the name exists, ids distinct/increasing, results agree, catalogue = model); plus every catalogue of <= 3 tables x every subset of 6 running shard ids through diffTables.",
+         "stateless interleaving exploration (cooperative scheduler, unbounded preemptions, visited-state pruning on a complete key) of real Manager catalogue calls + exhaustive operation sequences on real engines + exhaustive enumeration of diffTables",
+         "ALL interleavings at store-call granularity (with and without replica lag) of 2-3 real Managers running 1-2 of {create a, create b, delete a, allocate id} from 2 initial catalogues, checked on the committed log (no creation while the name exists, ids distinct/increasing, results agree, catalogue = model); replicas catch up in one apply call and must agree on every result; plus every create/delete/put/restore/restore-with-reconcile-tick/reconcile sequence up to length 3 (thorough 4) on real engines (listing, lookup, full content of both tables, ids, recreated table empty, other table untouched), odd table names, and every catalogue of <= 3 tables x every subset of 6 running shard ids through diffTables.",
          "Trusted: the store adapter's model of dragonboat (append = commit, deterministic LFSM results, stale reads with own writes); lag reduction argument in DESIGN.md. Engine-level sequences (emptiness of recreated tables, isolation, reconcile) are covered only when evidence key engine_sequences is present.",
          "DESIGN.md section 4, C14"),
  "C15": ("model_checking",
          "stateless interleaving exploration (cooperative scheduler, unbounded preemptions, replica lag as data choice, visited-state pruning) of real LeaseTable/ReturnTable",
-         "ALL interleavings, at the granularity of individual metadata-store reads and writes plus the lag of every stale read, of 1-2 lease/renew/return calls per node for 2 nodes (all program pairs) and 3 nodes, from 3 initial lease records; oracle on the committed log: no lease granted over another node's unexpired lease, return removes only the caller's lease, results agree with the log, at most one believer.",
+         "ALL interleavings, at the granularity of individual metadata-store reads and writes plus the lag of every stale read, of 1-2 lease/renew/return calls per node for 2 nodes (all program pairs) and 3 nodes, from 4 initial lease records, small scenarios a second time with lagging replicas moving forward by real snapshot save/install; oracle on the committed log: replicas agree on every result, no lease granted over another node's unexpired lease, return removes only the caller's lease, results agree with the log, at most one believer.",
          "Trusted: the store adapter's model of dragonboat; durations +1h/-1h so no wall-clock dependence.",
          "DESIGN.md section 4, C15"),
  "C19": ("model_checking",
-         "exhaustive update sequences on the real shardView + BFS over {local observation, gossip i->j} through the real memberlist delegate",
-         "Every sequence of length <= 4 (quick) / <= 5 (thorough) over 19 updates consistent with a ground truth (one leader per term, one membership per config index), one per call and all in one call, checked after every step against a function of the SET of updates (order/repetition independence) and for non-regression; BFS over 2 and 3 simulated nodes with visited set on the tuple of complete views; agreement after all-pairs gossip.",
+         "exhaustive update sequences on the real shardView + BFS over {local observation, gossip i->j} through the real memberlist delegate + stateless interleaving exploration of concurrent update()/shardInfo() callers at statement granularity",
+         "Every sequence of length <= 4 (quick) / <= 5 (thorough) over 19 updates consistent with a ground truth (one leader per term, one membership per config index), one per call and all in one call, checked after every step against a function of the SET of updates (order/repetition independence) and for non-regression; BFS over 2 and 3 simulated nodes with visited set on the tuple of complete views; agreement after all-pairs gossip; two concurrent callers of the real update() next to a reader at statement granularity (cooperative RWMutex) up to 2 (thorough 4) preemptions.",
          "Trusted: ground-truth assumption (Raft: <=1 leader per term). All transitions run the real update/merge/LocalState/MergeRemoteState code (hook exports only).",
          "DESIGN.md section 4, C19"),
  "C09": ("exploration",
          "bounded exhaustive enumeration of contents x bounds x limits x forms (and value-size orders) vs reference model",
-         "All 64 subsets of 6 keys x 100 bound pairs x every limit 0..n+1 x 3 forms, unary and streamed; every content of up to 3 (quick) / 5 (thorough) pairs with sizes from {1KiB,1MiB,2MiB-1KiB,2MiB} for size cuts, per-message size/flags/counts, and a write between any two pulls of a stream.",
+         "All 64 subsets of 6 keys x 100 bound pairs x every limit 0..n+1 x 3 forms, unary and streamed; every content of up to 3 (quick) / 5 (thorough) pairs with sizes from {1KiB,1MiB,2MiB-1KiB,2MiB} for size cuts, per-message size/flags/counts, a byte-wise sweep of two pairs (2MiB and 2MiB-d for every d in 0..2099) across the message limit, a write between any two pulls of a stream, and the same questions through the real KVServer.Range/IterateRange on a real engine.",
          "Trusted: refkv range semantics; vtproto SizeVT as the wire size. The KV gRPC layer above the FSM is exercised by C10/C16.",
          "DESIGN.md section 4, C09"),
  "C10": ("model_checking",
@@ -85,18 +85,18 @@ CHECKS = {
          "Trusted: the simulated host's rendering of dragonboat's contract (append = commit, answer after the proposing replica applied, read index captured at invocation); refkv. Real multi-node timing inside dragonboat is out of reach.",
          "DESIGN.md section 4, C10"),
  "C11": ("model_checking",
-         "explicit-state BFS of the real queue loop inside testing/synctest bubbles (fake clock, quiescence = wedge detector) + exhaustive end-to-end event sequences",
-         "Part A: for 6 (thorough 8) waiter configurations BFS to depth 9 (thorough 12) over {add, cancel, notify, sweep tick, caller reads}; every path replayed in a fresh bubble against the real IndexNotificationQueue.Run; probes Len/Notify/Add after every event; visited set on the complete concrete state. Part B: every event sequence up to length 5 (thorough 6) over 10 events through the real ForwardingKVServer, real leader/follower FSMs and the real queue wired as cmd/follower.go: an acknowledged write is readable on the node, no caller keeps waiting once its revision is applied.",
+         "explicit-state BFS of the real queue loop inside testing/synctest bubbles (fake clock, quiescence = wedge detector) + exhaustive end-to-end event sequences (in bubbles over real FSMs, and over real engines with the real replication worker)",
+         "Part A: for 6 (thorough 8) waiter configurations BFS to depth 9 (thorough 12) over {add, cancel, notify, sweep tick, caller reads}; every path replayed in a fresh bubble against the real IndexNotificationQueue.Run; probes Len/Notify/Add after every event; visited set on the complete concrete state. Part B: every event sequence up to length 5 (thorough 6) over 10 events through the real ForwardingKVServer, real leader/follower FSMs and the real queue wired as cmd/follower.go: an acknowledged write (put, transaction, delete) is readable on the node, no caller keeps waiting once its revision is applied. Part A2: every arrival order of 4..7 revisions x cancelled subsets around a sweep. Part C: every event sequence up to length 3 (thorough 4) over 6 events on real leader/follower engines joined by the real log server, replication worker, queue and forwarding server (values larger than half a follower proposal).",
          "Trusted: testing/synctest's durable-blocking detection; the leader is a stub client over a real FSM; local indices are deliberately ahead of leader indices. FSM Open/Close run outside the bubble (pebble's long-lived goroutines), their notifications are delivered in order afterwards.",
          "DESIGN.md section 4, C11"),
  "C12": ("exploration",
          "exhaustive enumeration of keys, ordered pairs and triples over a byte alphabet plus boundary lengths",
-         "175 keys (all strings of length 1..3 over {00,01,61,FE,FF} + lengths 1018..1024 in 4 fill patterns): round trip through both decoders, all ordered pairs for injectivity/order, all triples for range membership, and every key through a real FSM with wildcard reads/deletes and bookkeeping intact.",
+         "175 keys (all strings of length 1..3 over {00,01,61,FE,FF} + lengths 1018..1024 in 4 fill patterns): round trip through both decoders, all ordered pairs for injectivity/order, all triples for range membership, every key through a real FSM with wildcard reads/deletes and bookkeeping intact, and sibling keys for EVERY shared-prefix length 0..1023 through a real FSM (point reads, counted point deletes, transaction reads address exactly their own key).",
          "Trusted: bytes.Compare is the store's order (pebble DefaultComparer). Keys outside the alphabet are not covered.",
          "DESIGN.md section 4, C12"),
  "C01": ("exploration",
          "bounded exhaustive sequence enumeration on the real FSM vs a sorted-map reference model",
-         "Every command sequence up to depth 3 (quick) / 4 (thorough) over a 29-command alphabet on prefix-related keys, under two batchings, plus every range delete x every range read over a 14-key adversarial byte alphabet, is executed on a real fsm.FSM (pebble on a strict in-memory FS) and every result, read and index is compared with a plain sorted map. Exhaustive within the stated alphabet and depth; says nothing beyond them.",
+         "Every command sequence up to depth 3 (quick) / 4 (thorough) over a 29-command alphabet on prefix-related keys, under two batchings, plus every range delete x every range read over a 14-key adversarial byte alphabet, is executed on a real fsm.FSM (pebble on a strict in-memory FS) and every result, read and index is compared with a plain sorted map; all probe reads are repeated after a memtable flush and after close + reopen (same answers required). Exhaustive within the stated alphabet and depth; says nothing beyond them.",
          "Trusted: the reference model refkv (150 lines), pebble's MemFS. Keys/values outside the alphabets and sequences beyond the depth are not covered.",
          "DESIGN.md section 4, C01"),
 }
